@@ -36,7 +36,7 @@ def get_symbols(script: str) -> list[str]:
         if token[:2] in ('s"', "s'"):
             quote = token[1]
             # match to end of string value
-            found = quote in token[3:]
+            found = quote in token[2:]
             parts = [token]
             while not found and len(splits):
                 next = splits.pop()
